@@ -61,9 +61,24 @@ class _h:
         bins = nd_binnings(b, c.shape, c.kinds)
         kw = dict(data=b.array("d", (c.n, d), nan=c.nan), bins=bins)
         if c.weights:
-            kw["weights"] = b.array("w", (c.n,), c.weights)
-            nonneg(b, kw["weights"])
+            kw["weights"] = b.array("w", (c.n,), c.weights)      # weights of ANY sign: a negative cell sum is refused (below)
         return kw
+
+    def cell_sums(o):
+        rows = rows_of(o.data)
+        w = elems(o.weights) if hasattr(o, "weights") else [1] * len(rows)
+        shape = tuple(len(bins_of(x)) for x in o.bins)
+        out = []
+        for cell in itertools.product(*[range(s) for s in shape]):
+            sf = 0
+            for r, wt in zip(rows, w):
+                sf = sf + If(And(row_ok(r), cell_pred(o.bins, cell, r)), wt, 0)
+            out.append(sf)
+        return out
+
+    @raises(ValueError, "negative_cell_content_refused")
+    def _(o):
+        return Or(*[s < 0 for s in _h.cell_sums(o)]) if hasattr(o, "weights") else False
 
     @ensures("each_cell_holds_the_weight_of_its_rows")
     def _(a, old, result):
@@ -485,3 +500,35 @@ class _nd_getitem:
                 return True
         return False
 
+
+
+# ---------------------------------------------------------------------------------------------- adaptive ND fill_n (C04): NaN rows must not steer the growth
+
+@contract(HNDK + ".fill_n", props=["C04", "C03"], name=HNDK + ".fill_n[adaptive]")
+class _nd_filln_adaptive:
+    bounded = True
+    bound_note = "adaptive ND fill_n: axis 0 adaptive fixed-width with 1 bin (growth <= 3 bins), axis 1 one static bin; <= 2 rows with symbolic NaN flags"
+    extent_cap = 4
+
+    def configs():
+        return [{"n": 1, "nan": False}, {"n": 2, "nan": True}]
+
+    def inputs(b):
+        c = b.cfg
+        bins = [fixed_width(b, "B0", count=1, adaptive=True), make_binning(b, "B1", "static", 1)]
+        return dict(self=histnd(b, "h", bins, (1, 1)), values=b.array("d", (c.n, 2), nan=c.nan))
+
+    @ensures("complete_rows_are_covered_along_the_adaptive_axis_nothing_lost_nan_rows_ignored")
+    def _(a, old, result):
+        rows = rows_of(old.values)
+        f1 = F(a.self)
+        nb0 = attr(a.self, "_binnings")[0]
+        shp = shape_of(attr(a.self, "_frequencies"))
+        good = 0
+        for r in rows:
+            good = good + If(row_ok(r), 1, 0)
+        cs = [total(f1) + M(a.self)[0] == total(F(old.self)) + M(old.self)[0] + good, attr(nb0, "_bin_count") == shp[0], shp[1] == 1]
+        b0 = bins_of(nb0, shp[0])
+        for r in rows:
+            cs.append(Implies(row_ok(r), Or(*[inbin(b0, k, r[0], closed_last=False) for k in range(shp[0])])))
+        return And(*cs)
